@@ -163,6 +163,27 @@ def check_takes(ctx, tu, info):
             ctx.ob('C05.1', f, 'events are taken out of queueList at exactly one site, outside any loop', one,
                    detail='%d take sites (%s): events enqueued by listeners during the call would be consumed by the same call'
                           % (len(takes), ', '.join(f.nloc(t['node']) for t in takes)))
+            # what stands between a call and the pending events is only "is there any?": a take guarded by anything else (notification
+            # state, counters ...) makes the call skip events that are pending - clearEvents would leave them, process* would report false
+            if one:
+                from .listrules import edge_dominates
+                extra = []
+                tpos = takes[0]['pos']
+                for bid, blk in f.blocks.items():
+                    c = blk.get('cond')
+                    if not c or len(blk['succ']) != 2 or f.block_reaches(bid, bid):
+                        continue
+                    if not (edge_dominates(f, bid, 'true', tpos) or edge_dominates(f, bid, 'false', tpos)):
+                        continue
+                    try:
+                        ats = F.atoms(F.boolexpr(f, c, {}, True))
+                    except F.Unsupported:
+                        ats = ['(not extractable)']
+                    for a in ats:
+                        if not (a.replace('this.', '').replace('this->', '') in ('queueList.empty()',) or a.endswith('queueList.empty()')):
+                            extra.append('%s at %s' % (a, f.nloc(c)))
+                ctx.ob('C05.1', f, 'the take is guarded by nothing but "queueList is not empty"', not extra,
+                       detail='also depends on %s' % '; '.join(extra[:3]), key_detail='take guard')
             if one and inv:
                 # recursion into the next prototype level (heterogeneous doProcessIf) is a separate call with its own take
                 later = [n for n in inv if f.pos_reaches(f.pos(n), takes[0]['pos']) and (f.callee_key(n) or '') != f.skey]
